@@ -1765,10 +1765,9 @@ class VM:
         if hasattr(func, "_original_func"):
             func = func._original_func
 
-        # Use existing invoke mechanism
-        self._invoke_js_function(func, args, this_val)
-        result = self._execute()
-        return result
+        # Run the call to completion and come back here (running the main loop
+        # instead would also execute the rest of the caller inside this call)
+        return self._call_callback(func, args, this_val)
 
     def _regex_poll(self):
         """Deadline poll for the regex engine, bound to this (running) interpreter."""
